@@ -111,13 +111,11 @@ Utf8From(s, i) ==
 Utf8Ok(s) == (\A i \in 1..Len(s) : s[i] < 128) \/ Utf8From(s, 1)            \* BAD (256) is in no range
 IsLead(b) == b < 128 \/ b >= 192                    \* first byte of a character
 \* remove the first k characters of a well-formed string; BAD-marked when there are fewer
-DropChars(s, k) ==
-  LET m == IF Len(s) < 4 * k + 1 THEN Len(s) ELSE 4 * k + 1              \* k characters end within 4k bytes
-      leads == {i \in 1..m : IsLead(s[i])} IN
-  IF k = 0 THEN s
-  ELSE IF Cardinality(leads) < k THEN <<BAD>>
-  ELSE IF Cardinality(leads) = k /\ m = Len(s) THEN <<>>
-  ELSE Drop(s, (CHOOSE i \in leads : Cardinality({j \in leads : j < i}) = k) - 1)
+\* (bytes of the character whose first byte is b; s is well-formed, as every Rust String is)
+CharLen(b) == IF b < 128 THEN 1 ELSE IF b < 224 THEN 2 ELSE IF b < 240 THEN 3 ELSE 4
+RECURSIVE CharOffset(_, _, _)
+CharOffset(s, i, k) == IF k = 0 THEN i ELSE IF i > Len(s) THEN 0 ELSE CharOffset(s, i + CharLen(s[i]), k - 1)
+DropChars(s, k) == LET i == CharOffset(s, 1, k) IN IF i = 0 THEN <<BAD>> ELSE Drop(s, i - 1)
 
 \* ---- components
 RECURSIVE SplitFrom(_, _)
@@ -434,6 +432,22 @@ ModelConformsAt(ws, rel) ==
      \A tg \in Targets :
         Conforms(IF tg[1] = "file_path" THEN xl ELSE xd, UriFor(tg[1], tg[2], rel), AnswerAt(w, tg, rel, loc, lp))
 
+\* Confinement and ModelConforms in one pass (same formulas, the lookups shared); used by the deepest configuration
+ConfinedAndConformsAt(ws, rel) ==
+  LET fp == TryFindPrepD(Dev, rel)
+      lp == FilePathPrepD(Dev, <<SLASH>> \o rel)
+      ed == ExpectDecodingPrep(rel)
+      el == ExpectLiteralPrep(rel) IN
+  \A wi \in DOMAIN ws :
+     LET w == ws[wi]
+         loc == TryFindOnD(Dev, w, fp)
+         xd == ExpectDecodingOn(w, ed)
+         xl == ExpectLiteralOn(w, el) IN
+     \A tg \in Targets :
+        LET a == AnswerAt(w, tg, rel, loc, lp) IN
+        /\ ConfinedAnswer(w, a)
+        /\ Conforms(IF tg[1] = "file_path" THEN xl ELSE xd, UriFor(tg[1], tg[2], rel), a)
+
 \* 3d. The positive half and the redirect / index rule, per world (quantified over its nodes, not over requests)
 RelNames(w, n) == SubSeq(n.p, Len(w.root) + 1, Len(n.p))
 CleanName(nm) == ~HasSub(nm, DOTDOT) /\ ~Has(nm, COLON)
@@ -553,6 +567,7 @@ Confinement    == ConfinementAt(Worlds, Rel(path))
 GuardSound     == GuardSoundAt(Worlds, Rel(path))
 SharedIsHandle == Len(path) <= 2 => SharedIsHandleAt(Worlds, Rel(path))
 ModelConforms  == ModelConformsAt(Worlds, Rel(path))
+ConfinedAndConforms == ConfinedAndConformsAt(Worlds, Rel(path))
 \* evaluated in the initial state only (they quantify over the nodes of the worlds)
 Positive       == (path = <<>>) => \A wi \in WorldIx : PositiveHalf(Worlds[wi])
 RedirectIndex  == (path = <<>>) => \A wi \in WorldIx : RedirectIndexRule(Worlds[wi]) /\ NoWildcardRule(Worlds[wi])
